@@ -1342,7 +1342,8 @@ pub fn check_c11(ix: &Ix<'_>, v: &mut Vec<Violation>) {
         for h in holders {
             let holder_kind = reqs[h].kind;
             let Some(g) = reqs[h].gate.map(|g| &ix.gates[g]) else { continue };
-            let opened = g.open.as_ref().map(|o| o.0).or(g.exit.as_ref().filter(|_| g.immediate).map(|x| x.0));
+            // (gates released by the closing phase have no GateOpen event: their exit is the evidence)
+            let opened = g.open.as_ref().map(|o| o.0).or(g.exit.as_ref().map(|x| x.0));
             let handler_pending = opened.is_none_or(|o| o > fate_seq);
             let certainly_in_use = if holder_kind == ReqKind::Pub2 {
                 // in use until PUBCOMP is produced, i.e. until the protocol handler of this exchange's
@@ -2592,7 +2593,7 @@ pub fn check_all(out: &RunOut) -> Vec<Violation> {
             check_c04(&ix, &mut v);
             check_c03(&ix, &mut v);
         }
-        "C11" => {
+        "C11" | "C11X" => {
             check_c11(&ix, &mut v);
             check_handler_content(&ix, &mut v, "C03");
         }
